@@ -83,7 +83,7 @@ class World:
         return self.wait_event(lambda r: r["e"] == "tok.dep.changed" and r.get("job") == j and r.get("new") == "OK", timeout, since)
 
     # --- processes
-    def start(self, p, total=None):
+    def start(self, p, total=None, wait=True):
         """total: the process declares the token with another total than the one it was created with"""
         env = dict(os.environ, PYTHONPATH=f"{REPO_SRC}:{VERIF}", XPM_VERIF="1", XPM_VERIF_TRACE=str(self.log),
                    XPM_VERIF_PAUSE=str(self.pausedir))
@@ -91,6 +91,11 @@ class World:
                              env=env, stdin=subprocess.PIPE, stdout=subprocess.PIPE, stderr=subprocess.DEVNULL, text=True, bufsize=1)
         self.procs[p] = q
         self.pids[p] = q.pid
+        if not wait:
+            return None
+        return self.started(p)
+
+    def started(self, p):
         r = self.recv(p, timeout=30)
         if r and r.get("ok"):
             self.emit("h.start", p=p)
@@ -134,10 +139,12 @@ class World:
     def suspend(self, p):
         """the scheduler process is not scheduled for a while (SIGSTOP): the events of the token directory queue up"""
         self.emit("h.note", what=f"{p} suspended")
+        self.suspended = getattr(self, "suspended", set()) | {p}
         os.kill(self.pids[p], signal.SIGSTOP)
 
     def resume(self, p):
         self.emit("h.note", what=f"{p} resumed")
+        self.suspended = getattr(self, "suspended", set()) - {p}
         os.kill(self.pids[p], signal.SIGCONT)
 
     def acquire(self, j):
@@ -159,6 +166,11 @@ class World:
         while (self.jobsroot / j / (j + ".pid")).exists() and time.time() - t0 < 10:
             time.sleep(0.01)
         time.sleep(0.05)
+        # a live scheduler waits for the processes it started (aio_code): the job does not stay a zombie, and the threads of
+        # other schedulers that wait for that process see it go
+        p = self.owner[j]
+        if p in self.procs and self.procs[p].poll() is None and not getattr(self, "suspended", set()) & {p}:
+            self.cmd(p, op="reap", job=j)
 
     def killjob(self, j):
         """the job process is killed from outside (SIGKILL, out of memory): it ends without removing its pid file"""
@@ -309,6 +321,66 @@ def sc_orphan_killed():
             if r and r.get("acquired"):
                 w.release("c")
     w.quiescent(0.3)
+    return w.close()
+
+
+def sc_release_raced():
+    """the job has ended; its scheduler releases the token (recount, the file is there) while the reclaim thread of another
+    scheduler, which was watching the job, removes the token file: exactly between the test and the removal of the owner.
+    The release must go through: the amount comes back and the owner's waiting job is told"""
+    w = World(1, {"a": "p1", "b": "p1"}, {"a": 1, "b": 1})
+    w.start("p1"); w.start("p2")
+    w.submit("a"); w.acquire("a"); w.startjob("a")
+    w.wait_event(lambda r: r["e"] == "tok.evt.cached" and r.get("p") == "p2" and r.get("job") == "a", 5)
+    w.submit("b")
+    w.acquire("b")                         # refused: b waits
+    w.suspend("p2")
+    w.endjob("a")
+    w.arm("delete.checked")
+    w.send("p1", op="release", job="a")
+    reached = w.wait_reached("delete.checked", "p1")
+    w.disarm("delete.checked")
+    m = w.mark()
+    w.resume("p2")
+    if reached:
+        w.wait_event(lambda r: r["e"] == "tok.file.delete" and r.get("p") == "p2" and r.get("job") == "a", 10, m)
+        time.sleep(0.2)
+        w.go("delete.checked", "p1")
+    w.recv("p1")
+    w.told("b", m, 6)
+    w.quiescent()
+    r = w.acquire("b")
+    if r and r.get("acquired"):
+        w.startjob("b"); w.endjob("b"); w.release("b")
+    w.quiescent()
+    return w.close()
+
+
+def sc_late_start_ended():
+    """a job has ended but its scheduler has not given the token back yet (the token file is still there, the pid file is
+    gone) when another scheduler starts: the first count of the newcomer finds the file, the reclaim thread it starts removes
+    it at once -- before the newcomer watches the directory. The newcomer must not go on believing that the unit is taken"""
+    w = World(1, {"a": "p1", "b": "p2"}, {"a": 1, "b": 1})
+    w.start("p1")
+    w.submit("a"); w.acquire("a"); w.startjob("a")
+    w.endjob("a")
+    w.arm("init.counted")
+    m = w.mark()
+    w.start("p2", wait=False)
+    reached = w.wait_reached("init.counted", "p2", 20)
+    w.disarm("init.counted")
+    if reached:
+        w.wait_event(lambda r: r["e"] == "tok.file.delete" and r.get("p") == "p2" and r.get("job") == "a", 10, m)
+        time.sleep(0.2)
+        w.go("init.counted", "p2")
+    w.started("p2")
+    w.submit("b")
+    w.release("a")
+    w.quiescent()
+    r = w.acquire("b")
+    if r and r.get("acquired"):
+        w.startjob("b"); w.endjob("b"); w.release("b")
+    w.quiescent()
     return w.close()
 
 
@@ -495,6 +567,73 @@ def sc_larger_again():
     return w.close()
 
 
+def sc_again_stale_event():
+    """a job ends, its scheduler gives the token back and takes it again for the same job at once (a failed job submitted
+    again: same job, same token file name) -- before its own observer thread has handled the deletion event of the release.
+    The late event must not be taken for the deletion of the token just taken: the scheduler would forget the file, learn
+    about it again from the creation event as if it were somebody else's, start a reclaim thread for its own job -- whose
+    run lock does not exclude a thread of the same process -- and that thread, finding no pid file yet, would remove the
+    token file of the job that is being started"""
+    w = World(4, {"a": "p1", "b": "p2"}, {"a": 1, "b": 2})
+    w.start("p1"); w.start("p2")
+    w.submit("a"); w.acquire("a"); w.startjob("a")
+    w.wait_event(lambda r: r["e"] == "tok.evt.cached" and r.get("p") == "p2" and r.get("job") == "a", 5)
+    w.endjob("a")
+    w.arm("evt.deleted")
+    w.release("a")
+    r1 = w.wait_reached("evt.deleted", "p1", 10)
+    w.wait_reached("evt.deleted", "p2", 10)
+    w.disarm("evt.deleted")
+    w.go("evt.deleted", "p2")
+    # (the thread of p2 that watched the first run has seen it end)
+    w.wait_event(lambda r: r["e"] in ("tok.watch.reclaim", "tok.watch.keep") and r.get("p") == "p2" and r.get("job") == "a", 10)
+    m = w.mark()
+    w.resubmit("a", 3); w.acquire("a")
+    if r1:
+        w.go("evt.deleted", "p1")       # the observer of p1 now handles: deleted (of the release), created, modified
+    time.sleep(0.6)
+    w.quiescent(0.5)
+    w.startjob("a")
+    w.submit("b")
+    r = w.acquire("b")                  # 3 of 4 units are held: refused
+    if r and r.get("acquired"):
+        w.startjob("b"); w.endjob("b"); w.release("b")
+    w.endjob("a"); w.release("a")
+    w.quiescent()
+    return w.close()
+
+
+def sc_again_stale_foreign():
+    """the start of a job is aborted after its token was taken: the job lock is given back first, and the thread of another
+    scheduler that waited for it finds no pid file and removes the token file before the owner releases (which then finds
+    the file missing). The owner takes the token again for the same job before its observer has handled that deletion:
+    the late event must not make it forget the token it holds"""
+    w = World(4, {"a": "p1", "b": "p2"}, {"a": 3, "b": 2})
+    w.start("p1"); w.start("p2")
+    w.submit("a"); w.acquire("a")
+    w.wait_event(lambda r: r["e"] == "tok.evt.cached" and r.get("p") == "p2" and r.get("job") == "a", 5)
+    w.arm("evt.deleted")
+    m = w.mark()
+    w.cmd("p1", op="release", job="a", gap=1.0)
+    r1 = w.wait_reached("evt.deleted", "p1", 10)
+    w.wait_reached("evt.deleted", "p2", 5)
+    w.disarm("evt.deleted")
+    w.go("evt.deleted", "p2")
+    w.resubmit("a", 3); w.acquire("a")
+    if r1:
+        w.go("evt.deleted", "p1")
+    time.sleep(0.6)
+    w.quiescent(0.5)
+    w.startjob("a")
+    w.submit("b")
+    r = w.acquire("b")                  # 3 of 4 units are held: refused
+    if r and r.get("acquired"):
+        w.startjob("b"); w.endjob("b"); w.release("b")
+    w.endjob("a"); w.release("a")
+    w.quiescent()
+    return w.close()
+
+
 def sc_info_torn():
     """the only scheduler dies while it rewrites token.info (the file is left empty: truncated, not yet written); the
     next scheduler declares the token again and uses it"""
@@ -513,7 +652,7 @@ def sc_info_torn():
     return w.close()
 
 
-SCENARIOS = {"two_killed_orphans": sc_two_killed_orphans, "larger_again": sc_larger_again, "info_torn": sc_info_torn, "enlarged": sc_enlarged, "enlarged_while_held": sc_enlarged_while_held, "orphan_killed": sc_orphan_killed, "late_start_two": sc_late_start_two, "race_in_create": sc_race_in_create, "contention": sc_contention, "halfwritten": sc_halfwritten, "owner_dies_running": sc_owner_dies_running,
+SCENARIOS = {"again_stale_foreign": sc_again_stale_foreign, "again_stale_event": sc_again_stale_event, "late_start_ended": sc_late_start_ended, "release_raced": sc_release_raced, "two_killed_orphans": sc_two_killed_orphans, "larger_again": sc_larger_again, "info_torn": sc_info_torn, "enlarged": sc_enlarged, "enlarged_while_held": sc_enlarged_while_held, "orphan_killed": sc_orphan_killed, "late_start_two": sc_late_start_two, "race_in_create": sc_race_in_create, "contention": sc_contention, "halfwritten": sc_halfwritten, "owner_dies_running": sc_owner_dies_running,
              "dies_mid_create": sc_dies_mid_create, "partial_returns": sc_partial_returns, "mixed": sc_mixed}
 
 if __name__ == "__main__":
